@@ -388,6 +388,25 @@ type Renamed interface {
 	M(string, string, s1.T, string)
 }
 """
+FILES["adv/fixed/walk.go"] = """package fixed
+
+import (
+	"unsafe"
+
+	"example.com/m/dep/ids"
+)
+
+type Raw interface {
+	Peek(p unsafe.Pointer, ps ...unsafe.Pointer) uintptr
+}
+
+type Indexed[K ~int | ids.ID, V any] interface {
+	Find(k K) (V, bool)
+}
+"""
+case("fixed-walk-raw", "adv/fixed", ["Raw"])
+case("fixed-walk-union", "adv/fixed", ["Indexed"])
+case("fixed-walk-both", "adv/fixed", ["Indexed", "Raw"], pkg="mocks", stub=True, resets=True)
 case("fixed-lower", "adv/fixed", ["Lower"], skip=True)
 case("fixed-lower-ensure", "adv/fixed", ["Lower"])
 case("fixed-lower-stub", "adv/fixed", ["Lower"], skip=True, stub=True, resets=True, pkg="mocks")
